@@ -8,23 +8,23 @@
 (* invariant the private state after every call is printed for the drift     *)
 (* comparison with the real reader's verif_snapshot().                       *)
 EXTENDS FastaMachine, Json
-CONSTANTS Alphabet, MaxLen, Caps, GrowLimit, MaxOps
-VARIABLES x, cap0, s, rsets, a, reported, hist, verdict
-vars == <<x, cap0, s, rsets, a, reported, hist, verdict>>
+CONSTANTS Alphabet, MaxLen, Caps, GrowLimit, MaxOps, MaxFail
+VARIABLES x, cap0, fail0, part0, s, rsets, a, reported, hist, verdict
+vars == <<x, cap0, fail0, part0, s, rsets, a, reported, hist, verdict>>
 NSl == 2
 Inputs == UNION {[1..n -> Alphabet] : n \in 0..MaxLen}
 Chain == FaChain(x)
-Init == /\ x \in Inputs /\ cap0 \in Caps /\ s = InitReaderM(cap0) /\ rsets = [t \in 1..NSl |-> EmptySetM]
+Init == /\ x \in Inputs /\ cap0 \in Caps /\ fail0 \in 0..MaxFail /\ part0 \in (IF fail0 = 0 THEN {FALSE} ELSE BOOLEAN) /\ s = InitReaderM(cap0, fail0, part0) /\ rsets = [t \in 1..NSl |-> EmptySetM]
         /\ a = InitState(NSl, cap0) /\ reported = <<>> /\ hist = <<>> /\ verdict = {}
 Views == [t \in 1..NSl |-> SetViewM(rsets[t])]
 Ev(op, slot, n, to, res, pos, sets2, s2) ==
-  [op |-> op, slot |-> slot, n |-> n, to |-> to, res |-> res, pos |-> pos, io |-> <<>>, grow |-> s2.grows, cap |-> s2.cap, alloc |-> -1,
-   sets |-> sets2, sets_panic |-> FALSE, setcap |-> [t \in 1..NSl |-> 0], fault |-> FALSE, pp |-> ""]
+  [op |-> op, slot |-> slot, n |-> n, to |-> to, res |-> res, pos |-> pos, io |-> s2.ios, grow |-> s2.grows, cap |-> s2.cap, alloc |-> -1,
+   sets |-> sets2, sets_panic |-> FALSE, setcap |-> [t \in 1..NSl |-> 0], fault |-> fail0 > 0, pp |-> ""]
 Step(e, s2, rsets2, name, rep) ==
   LET j == Judge("fasta", Chain, a, e) IN
   /\ verdict' = j.viol /\ a' = j.s /\ s' = s2 /\ rsets' = rsets2 /\ hist' = Append(hist, name)
   /\ reported' = IF rep # <<>> THEN Append(reported, rep) ELSE reported
-  /\ UNCHANGED <<x, cap0>>
+  /\ UNCHANGED <<x, cap0, fail0, part0>>
 Can == Len(hist) < MaxOps /\ verdict = {} /\ a.mode # "lost"
 DoNext == /\ Can
           /\ LET r == NextM(x, GrowLimit, s) IN
@@ -37,13 +37,14 @@ DoSet(t, n) == /\ Can
                           IF n = 0 THEN "set" ELSE "exact" \o ToString(n), IF r.res.k = "ok" THEN PosM(r.s) ELSE <<>>)
 DoSeek(i) == /\ Can /\ i <= Len(reported)
              /\ LET to == reported[i]
-                    s2 == SeekM(x, s, to[1], to[2])
-                IN Step(Ev("seek", 0, 0, to, [k |-> "ok"], PosM(s2), Views, s2), s2, rsets, "seek:" \o ToString(to[1]) \o ":" \o ToString(to[2]), <<>>)
+                    r == SeekM(x, s, to[1], to[2])
+                    s2 == r.s
+                IN Step(Ev("seek", 0, 0, to, r.res, PosM(s2), Views, s2), s2, rsets, "seek:" \o ToString(to[1]) \o ":" \o ToString(to[2]), <<>>)
 Next == DoNext \/ (\E t \in 1..NSl, n \in 0..2 : DoSet(t, n)) \/ (\E i \in 1..3 : DoSeek(i))
 Spec == Init /\ [][Next]_vars
 \* (B) => (A): no call of the machine breaks a conjunct of any property
 Refines == verdict = {}
 StNum == CASE s.st = "New" -> 0 [] s.st = "Parsing" -> 1 [] s.st = "Incomplete" -> 2 [] s.st = "Positioned" -> 3 [] s.st = "Finished" -> 4
-Emit == hist # <<>> => PrintT(<<"SNAP", ToJson([x |-> x, cap0 |-> cap0, hist |-> hist, state |-> StNum, buf_len |-> Len(s.buf), cap |-> s.cap,
+Emit == hist # <<>> => PrintT(<<"SNAP", ToJson([x |-> x, cap0 |-> cap0, fail |-> fail0, partial |-> part0, hist |-> hist, state |-> StNum, buf_len |-> Len(s.buf), cap |-> s.cap,
                                                 start |-> s.start, search_pos |-> s.spos, seq_pos |-> s.seqpos, pos_line |-> s.pline, pos_byte |-> s.pbyte])>>)
 =============================================================================
